@@ -457,12 +457,17 @@ func EVAL(ctx context.Context, ast MalType, env EnvType) (res MalType, e error) 
 			if e != nil {
 				return nil, e
 			}
+			// a binding vector built by a macro has no position of its own: report at the let form then
+			var bindsAt MalType = a1
+			if lisperror.GetPosition(a1) == nil {
+				bindsAt = ast
+			}
 			if len(arr1)%2 != 0 {
-				return nil, lisperror.NewLispError(errors.New("let: odd elements on binding vector"), a1)
+				return nil, lisperror.NewLispError(errors.New("let: odd elements on binding vector"), bindsAt)
 			}
 			for i := 0; i < len(arr1); i += 2 {
 				if !Q[Symbol](arr1[i]) {
-					return nil, lisperror.NewLispError(errors.New("non-symbol bind value"), a1)
+					return nil, lisperror.NewLispError(errors.New("non-symbol bind value"), bindsAt)
 				}
 				exp, e := EVAL(ctx, arr1[i+1], let_env)
 				if e != nil {
